@@ -401,6 +401,47 @@ def h3_saverestore(timeout=200, part=None, **kw):
                          timeout, concretize=conc, shims={"namespace_shims": shims}, part=part)
 
 
+def h5_afterclose(timeout=200, part=None, **kw):
+    """m l [l] h (l){0..2} [m l] paint, all coordinates symbolic: segments that follow a closing h without a new m stay part of the subpath (its points continue from the start point),
+    also when the path holds a second subpath and when the painting operator closes the path once more"""
+    shims = C05._shims()
+    import pdfminer.pdfinterp as pi
+    import pdfminer.converter as cv
+
+    def fn(ex):
+        it, dev = _setup()
+        md = Model()
+        r = lambda n: ex.real(n, -R, R)
+        nb = 1 + ex.choice(2, "before")
+        na = ex.choice(3, "after")
+        second = ex.choice(2, "second")
+        where = ex.choice(2, "where") if second else 0            # the second subpath comes after or before the closed one
+        paint = ["S", "s", "f", "B*", "b"][ex.choice(5, "paint")]
+        closed = [("C", "m", [r("a0"), r("a1")])] + [("C", "l", [r("b%d0" % i), r("b%d1" % i)]) for i in range(nb)] + [("C", "h", [])] + [("C", "l", [r("d%d0" % i), r("d%d1" % i)]) for i in range(na)]
+        other = [("C", "m", [r("e0"), r("e1")]), ("C", "l", [r("f0"), r("f1")])] if second else []
+        prog = (other + closed if where else closed + other) + [("P", paint, [])]
+        info = {"prog": [(k, o) for k, o, _ in prog], "args": [[("sym", str(v.e)) for v in a] for _, _, a in prog]}
+        for kind, o, a in prog:
+            try:
+                if kind == "C":
+                    real_cons(it, o, a + [0] * 6)
+                    md.cons(o, a + [0] * 6)
+                else:
+                    real_paint(it, o)
+                    md.paint(o)
+            except symx.Violation:
+                raise
+            except Exception as e:
+                ex.require(False, "operator %s raised %s: %s" % (o, type(e).__name__, e), **info)
+        check_shapes(ex, shapes_of(dev.cur_item), md.shapes, info)
+
+    def conc(m, info):
+        return {"prog": info["prog"], "args": info["args"], "vals": {str(d): symx.mval(m, m[d]) for d in m.decls()}}
+    return core.run_symx("H5_afterclose", fn, [cv.PDFLayoutAnalyzer.paint_path, pi.PDFPageInterpreter.do_h, pi.PDFPageInterpreter.do_l, pi.PDFPageInterpreter.do_s, pi.PDFPageInterpreter.do_b],
+                         {"program": "m l [l] h (l){0..2} [m l] then S / s / f / B* / b; the second subpath before or after", "operands": "symbolic reals, identity CTM"},
+                         timeout, concretize=conc, shims={"namespace_shims": shims}, part=part)
+
+
 def h2_quads(timeout=200, part=None, **kw):
     """five-point subpaths (m l l l h / m l l l l / re) with ALL coordinates symbolic: the line / rectangle / curve classification"""
     shims = C05._shims()
@@ -610,6 +651,7 @@ def replay(harness, inp):
 def jobs(tier):
     J = [Job("H2_quads:%d" % k, "h2_quads", {"part": [k, 3, 6]}, 300, "H2_quads") for k in range(3)]
     J += [Job("H3_saverestore:%d" % k, "h3_saverestore", {"part": [k, 4, 8]}, 300, "H3_saverestore") for k in range(4)]
+    J += [Job("H5_afterclose:%d" % k, "h5_afterclose", {"part": [k, 4, 5]}, 300, "H5_afterclose") for k in range(4)]
     J += [Job("H4_resources:%d" % k, "h4_resources", {"npages": 2, "kinds": RES_QUICK if tier == "quick" else None, "part": [k, 8, 6]}, 300 if tier == "quick" else 1800, "H4_resources") for k in range(8)]
     if tier == "quick":
         for k in range(10):
